@@ -87,6 +87,11 @@ type Connection struct {
 	// Frame processing
 	frameCh    chan *protocol.Frame // Sequential frame dispatch channel (stream-ordered frames)
 	fastLaneCh chan *protocol.Frame // Parallel dispatch for unordered frames (UDP_DATAGRAM, ICMP_ECHO)
+	// dispatchMu is read-held by a drain goroutine for the time one frame is
+	// in its handler; stopDispatch takes it exclusively to wait for the
+	// handlers in progress and to turn away every later frame.
+	dispatchMu      sync.RWMutex
+	dispatchStopped atomic.Bool
 
 	// Callbacks
 	onFrame      func(*Connection, *protocol.Frame)
@@ -173,7 +178,13 @@ func (c *Connection) drainFrames(ch <-chan *protocol.Frame) {
 				return
 			default:
 			}
+			c.dispatchMu.RLock()
+			if c.dispatchStopped.Load() {
+				c.dispatchMu.RUnlock()
+				return
+			}
 			func() {
+				defer c.dispatchMu.RUnlock()
 				defer func() {
 					_ = recover()
 				}()
@@ -182,6 +193,32 @@ func (c *Connection) drainFrames(ch <-chan *protocol.Frame) {
 		case <-c.closed:
 			return
 		}
+	}
+}
+
+// StopDispatch makes sure that no further frame of this connection is handed
+// to its handler and waits, for at most limit, until the handlers in progress
+// have returned; it reports whether they all have. A drain goroutine may have
+// taken a frame off the queue just before the connection went away: whatever
+// that frame's handler does, it does after the connection's clean-up has
+// started (a relay entry inserted, an open completed, a route stored), and
+// nothing would remove it again. The agent therefore cleans up, waits here,
+// and cleans up once more.
+func (c *Connection) StopDispatch(limit time.Duration) bool {
+	c.dispatchStopped.Store(true)
+	idle := make(chan struct{})
+	go func() {
+		c.dispatchMu.Lock()
+		c.dispatchMu.Unlock() //nolint:staticcheck // the lock is only a barrier
+		close(idle)
+	}()
+	t := time.NewTimer(limit)
+	defer t.Stop()
+	select {
+	case <-idle:
+		return true
+	case <-t.C:
+		return false
 	}
 }
 
